@@ -6,11 +6,13 @@ def explore(run, lean):
     quick = run.tier == "quick"
     hsm_corr.explore(run, "C24", 1500 if quick else 20000, hosts=("plain", "instr", "queued"),
                      malformed_rate=0.6, exhaustive_n=(0 if quick else 0))
-    run.extra["rule"] = ("corpus witnesses first, then random charts (1-14 states, 40% deep chains, multi-level initial "
+    hsm_corr.explore_fallthrough(run, 300 if quick else 6000)
+    run.extra["rule"] = ("(a) corpus witnesses first, then random charts (1-14 states, 40% deep chains, multi-level initial "
                          "transitions, per-state HANDLED/fall-through flags) with scripts of start_at + 1-6 ops on plain / "
                          "instrumented / queued hosts; thorough tier adds all trees with <=5 states x all (cur,S,T) x all single "
                          "init assignments; non-trivial = the script reaches the property's mechanism (see histogram); "
-                         "distinct by canonical JSON")
+                         "distinct by canonical JSON; (b) charts with one handler that returns no status for every signal it has no clause for "
+                         "(parent search included): every op ends normally or with HsmTopologyException within 3000 handler calls")
 
 
 def replay(case):
